@@ -982,14 +982,21 @@ impl XmlCData {
     }
 
     pub fn insert(&mut self, offset: usize, data: &str) -> error::Result<()> {
-        fn check(value: &str) -> error::Result<bool> {
-            let new = format!("<![CDATA[{}]]>", value);
-            let (rest, _) = xml_parser::cdsect(new.as_str())?;
-            Ok(rest.is_empty())
-        }
-
-        self.data = insert_char_at(self.data.as_str(), offset, data, check)?;
+        self.data = insert_char_at(self.data.as_str(), offset, data, XmlCData::check)?;
         Ok(())
+    }
+
+    /// Replace `count` characters at `offset` by `data`; nothing changes if the result is refused.
+    pub fn replace(&mut self, offset: usize, count: usize, data: &str) -> error::Result<()> {
+        let rest = delete_char_range(self.data.as_str(), offset, count);
+        self.data = insert_char_at(rest.as_str(), offset, data, XmlCData::check)?;
+        Ok(())
+    }
+
+    fn check(value: &str) -> error::Result<bool> {
+        let new = format!("<![CDATA[{}]]>", value);
+        let (rest, _) = xml_parser::cdsect(new.as_str())?;
+        Ok(rest.is_empty())
     }
 
     pub fn is_empty(&self) -> bool {
@@ -1211,14 +1218,21 @@ impl XmlComment {
     }
 
     pub fn insert(&mut self, offset: usize, comment: &str) -> error::Result<()> {
-        fn check(value: &str) -> error::Result<bool> {
-            let new = format!("<!--{}-->", value);
-            let (rest, _) = xml_parser::comment(new.as_str())?;
-            Ok(rest.is_empty())
-        }
-
-        self.comment = insert_char_at(self.comment.as_str(), offset, comment, check)?;
+        self.comment = insert_char_at(self.comment.as_str(), offset, comment, XmlComment::check)?;
         Ok(())
+    }
+
+    /// Replace `count` characters at `offset` by `comment`; nothing changes if the result is refused.
+    pub fn replace(&mut self, offset: usize, count: usize, comment: &str) -> error::Result<()> {
+        let rest = delete_char_range(self.comment.as_str(), offset, count);
+        self.comment = insert_char_at(rest.as_str(), offset, comment, XmlComment::check)?;
+        Ok(())
+    }
+
+    fn check(value: &str) -> error::Result<bool> {
+        let new = format!("<!--{}-->", value);
+        let (rest, _) = xml_parser::comment(new.as_str())?;
+        Ok(rest.is_empty())
     }
 
     pub fn is_empty(&self) -> bool {
@@ -3520,13 +3534,20 @@ impl XmlText {
     }
 
     pub fn insert(&mut self, offset: usize, text: &str) -> error::Result<()> {
-        fn check(value: &str) -> error::Result<bool> {
-            let (rest, content) = xml_parser::content(value)?;
-            Ok(rest.is_empty() && content.children.is_empty())
-        }
-
-        self.text = insert_char_at(self.text.as_str(), offset, text, check)?;
+        self.text = insert_char_at(self.text.as_str(), offset, text, XmlText::check)?;
         Ok(())
+    }
+
+    /// Replace `count` characters at `offset` by `text`; nothing changes if the result is refused.
+    pub fn replace(&mut self, offset: usize, count: usize, text: &str) -> error::Result<()> {
+        let rest = delete_char_range(self.text.as_str(), offset, count);
+        self.text = insert_char_at(rest.as_str(), offset, text, XmlText::check)?;
+        Ok(())
+    }
+
+    fn check(value: &str) -> error::Result<bool> {
+        let (rest, content) = xml_parser::content(value)?;
+        Ok(rest.is_empty() && content.children.is_empty())
     }
 
     pub fn is_empty(&self) -> bool {
